@@ -28,6 +28,7 @@ import (
 	"github.com/bytedance/sonic"
 	"github.com/bytedance/sonic/ast"
 	"github.com/bytedance/sonic/decoder"
+	"github.com/bytedance/sonic/encoder"
 )
 
 // c02Struct is the destination of unm_struct: keys a..h hit typed fields, everything else is skipped
@@ -164,6 +165,11 @@ func c02Unm(err error) c02Res {
 	}
 }
 
+// c02Echo is a json.Marshaler that hands the document out as its encoding
+type c02Echo struct{ b []byte }
+
+func (e c02Echo) MarshalJSON() ([]byte, error) { return e.b, nil }
+
 func c02RefFlag(err error) string {
 	if err == nil {
 		return "1"
@@ -179,11 +185,15 @@ type c02Res struct {
 	acc      bool
 	mismatch bool
 	panicked bool
+	skipped  bool
 	kind     string
 	extra    []string
 }
 
 func (r c02Res) flag() string {
+	if r.skipped {
+		return "-"
+	}
 	if r.panicked {
 		return "P"
 	}
@@ -338,6 +348,75 @@ var c02APIs = []c02API{
 		// accept = "Skip said a value ends at `end`, and nothing but space follows"
 		r := c02Res{acc: full, kind: "trailing", extra: []string{"skip_end=" + itoa(end), "skip_start=" + itoa(start)}}
 		return r
+	}},
+	// ---- further public entry points that take a whole JSON text (wave 3)
+	{"enc_valid", func(doc []byte, st *c02State) c02Res { // encoder.Valid
+		ok, _ := encoder.Valid(doc)
+		return c02Res{acc: ok}
+	}},
+	{"get_str", func(doc []byte, st *c02State) c02Res { // sonic.GetFromString, empty path
+		n, err := sonic.GetFromString(c02Str(doc))
+		if err == nil {
+			err = n.Check()
+		}
+		return c02Res{acc: err == nil, kind: c02Kind(err)}
+	}},
+	{"newraw_cr", func(doc []byte, st *c02State) c02Res { // ast.NewRawConcurrentRead(doc).Check()
+		n := ast.NewRawConcurrentRead(c02Str(doc))
+		err := n.Check()
+		return c02Res{acc: err == nil, kind: c02Kind(err)}
+	}},
+	{"loads", func(doc []byte, st *c02State) c02Res { // ast.Loads: Go-side parse of the whole text into interface{}
+		// (the offset it returns is the end of the value only for scalars - for a container it is the offset
+		//  after the opening bracket - so it cannot be used to look at what follows; accepted = no error)
+		_, _, err := ast.Loads(c02Str(doc))
+		return c02Unm(err)
+	}},
+	{"dec_decode", func(doc []byte, st *c02State) c02Res { // decoder.NewDecoder(doc).Decode + CheckTrailings
+		var v interface{}
+		d := decoder.NewDecoder(c02Str(doc))
+		err := d.Decode(&v)
+		if err == nil {
+			err = d.CheckTrailings()
+		}
+		return c02Unm(err)
+	}},
+	{"dec_usenumber", func(doc []byte, st *c02State) c02Res { // numbers go through skip_number instead of vnumber
+		var v interface{}
+		d := decoder.NewDecoder(c02Str(doc))
+		d.UseNumber()
+		err := d.Decode(&v)
+		if err == nil {
+			err = d.CheckTrailings()
+		}
+		return c02Unm(err)
+	}},
+	{"dec_useint64", func(doc []byte, st *c02State) c02Res {
+		var v interface{}
+		d := decoder.NewDecoder(c02Str(doc))
+		d.UseInt64()
+		err := d.Decode(&v)
+		if err == nil {
+			err = d.CheckTrailings()
+		}
+		return c02Unm(err)
+	}},
+	// the encoder validates what a json.Marshaler hands it (alg.ValidStrict: validate_one with the string-
+	// validating scanner; json.Compact under CompactMarshaler): an acceptor of JSON text too
+	{"mar_marshaler", func(doc []byte, st *c02State) c02Res {
+		_, err := sonic.ConfigDefault.Marshal(c02Echo{doc})
+		return c02Res{acc: err == nil, kind: "marshaler"}
+	}},
+	{"mar_marshaler_std", func(doc []byte, st *c02State) c02Res {
+		_, err := sonic.ConfigStd.Marshal(c02Echo{doc})
+		return c02Res{acc: err == nil, kind: "marshaler"}
+	}},
+	{"mar_raw", func(doc []byte, st *c02State) c02Res { // json.RawMessage field value
+		if len(doc) == 0 {
+			return c02Res{skipped: true}
+		}
+		_, err := sonic.ConfigDefault.Marshal(json.RawMessage(doc))
+		return c02Res{acc: err == nil, kind: "marshaler"}
 	}},
 	// ---- the document as a member value: {"r":DOC}
 	{"w_raw", func(doc []byte, st *c02State) c02Res { // json.RawMessage field
